@@ -2,6 +2,7 @@ package checks
 
 import (
 	"fmt"
+	"github.com/tyler-sommer/stick/twig"
 	"math"
 	"regexp"
 	"strconv"
@@ -735,7 +736,89 @@ func c05Decode(n []int, p *int) *cx {
 	panic("bad term encoding")
 }
 
+// number literals in unusual but legal spellings: the value is the decimal reading of the digits
+var c05NumLits = []struct {
+	src string
+	v   float64
+}{{"010", 10}, {"0100", 100}, {"0777", 777}, {"007", 7}, {"08", 8}, {"019", 19}, {"00", 0}, {"0", 0}, {"1.50", 1.5}, {"001.5", 1.5}, {"010.50", 10.5},
+	{"0.10", 0.1}, {"10", 10}, {"1000000", 1000000}, {"123456789", 123456789}, {"0.000001", 0.000001}, {"00.5", 0.5}, {"9007199254740993", 9007199254740993}}
+
+func c05NumLit(i int) core.Result {
+	l := c05NumLits[i]
+	var log []string
+	env := c05Env(&log)
+	src := "{{ " + l.src + " }}|{{ " + l.src + " + 1 }}|{{ r(" + l.src + ") }}|{{ [" + l.src + "][0] == " + strconv.FormatFloat(l.v, 'f', -1, 64) + " ? 'eq' : 'ne' }}|"
+	want := fmt.Sprintf("%v|%v|%v|eq|", l.v, l.v+1, l.v)
+	if l.v == math.Trunc(l.v) && l.v >= 1 && l.v <= 1000 {
+		src += "{% for i in 1.." + l.src + " %}x{% endfor %}"
+		want += strings.Repeat("x", int(l.v))
+	}
+	out, err, pan := tryExec(env, src, nil)
+	if pan != "" {
+		return core.Violation("panic", src+" panicked: "+pan)
+	}
+	if err != nil {
+		return core.Violation("error", fmt.Sprintf("%q fails: %v", src, err))
+	}
+	if out != want {
+		return core.Violation("value", fmt.Sprintf("%q renders %q, want %q", src, out, want))
+	}
+	if len(log) != 1 || log[0] != "r("+goRepr(l.v)+")" {
+		return core.Violation("callbacks", fmt.Sprintf("%q: the function saw %v, want one call with %s", src, log, goRepr(l.v)))
+	}
+	return core.Okay(true, out)
+}
+
+// c05EnvIsolation: callbacks registered on one environment are not visible to, and do not replace those of, another
+// environment (two environments of each constructor, the same names registered on both in either order).
+func c05EnvIsolation(n int) core.Result {
+	mk := []func() *stick.Env{func() *stick.Env { return stick.New(nil) }, func() *stick.Env { return twig.New(nil) }}
+	kindA, kindB, order, what := n%2, (n/2)%2, (n/4)%2, (n/8)%3
+	a, b := mk[kindA](), mk[kindB]()
+	reg := func(e *stick.Env, tag string) {
+		switch what {
+		case 0:
+			e.Filters["cb"] = func(ctx stick.Context, v stick.Value, args ...stick.Value) stick.Value {
+				return tag + ":" + stick.CoerceString(v)
+			}
+		case 1:
+			e.Functions["cb"] = func(ctx stick.Context, args ...stick.Value) stick.Value { return tag + ":x" }
+		default:
+			e.Tests["cb"] = func(ctx stick.Context, v stick.Value, args ...stick.Value) bool { return tag == "A" }
+		}
+	}
+	if order == 0 {
+		reg(a, "A")
+		reg(b, "B")
+	} else {
+		reg(b, "B")
+		reg(a, "A")
+	}
+	c := mk[kindA]() // a third environment, created last, on which nothing was registered
+	src := []string{"{{ 'x'|cb }}", "{{ cb() }}", "{{ 1 is cb ? 'A:x' : 'B:x' }}"}[what]
+	oa, ea, pa := tryExec(a, src, nil)
+	ob, eb, pb := tryExec(b, src, nil)
+	_, ec, pc := tryExec(c, src, nil)
+	desc := fmt.Sprintf("%s on environments A (%d), B (%d), registration order %d", src, kindA, kindB, order)
+	if pa != "" || pb != "" || pc != "" {
+		return core.Violation("panic", desc+" panicked: "+pa+pb+pc)
+	}
+	if ea != nil || eb != nil || oa != "A:x" || ob != "B:x" {
+		return core.Violation("callbacks", fmt.Sprintf("%s: A renders %q (%v), B renders %q (%v); want A:x and B:x", desc, oa, ea, ob, eb))
+	}
+	if ec == nil {
+		return core.Violation("callbacks", desc+": a fresh environment on which nothing was registered knows the callback")
+	}
+	return core.Okay(true, oa+ob)
+}
+
 func c05Run(c core.Case) core.Result {
+	if c.Fam == "numlit" {
+		return c05NumLit(c.N[0])
+	}
+	if c.Fam == "envs" {
+		return c05EnvIsolation(c.N[0])
+	}
 	p := 0
 	term := c05Decode(c.N, &p)
 	ref := &c05Ref{}
@@ -805,6 +888,14 @@ func c05Run(c core.Case) core.Result {
 func c05Levels(tier string) []core.Level {
 	nOps := len(c05Leaves()) * 2
 	lv := []core.Level{
+		{Name: "number literals in 18 spellings (leading zeros, trailing zeros, large) printed, added to, passed to a function, compared, as a range bound; callbacks registered on one of two environments (core / twig, either order) stay with it", Gen: func(emit func(core.Case)) {
+			for i := range c05NumLits {
+				emit(core.Case{Fam: "numlit", N: []int{i}})
+			}
+			for n := 0; n < 24; n++ {
+				emit(core.Case{Fam: "envs", N: []int{n}})
+			}
+		}},
 		{Name: "every operand alone (20 values as literal and as variable), every unary operator on it, array/hash literal and access forms", Gen: func(emit func(core.Case)) {
 			for i := 0; i < nOps; i++ {
 				emit(core.Case{Fam: "term", N: []int{0, i}})
